@@ -183,5 +183,29 @@ impl<F: GeoFloat> LineIntersection<F> {
     }
 //@end
 
+// ------------------------------------------------------------------ nearest_endpoint (fallback of proper_intersection)
+pub uninterp spec fn m_pld<F: GeoFloat>(p: Coord<F>, l: Line<F>) -> int;
+pub mod geo_types { pub mod private_utils {
+    use super::super::*;
+    /// ASSUMED: the point-to-segment distance is a function of its arguments (nothing else is assumed about it)
+    #[verifier::external_body]
+    pub fn point_line_euclidean_distance<F: GeoFloat>(p: Coord<F>, l: Line<F>) -> (r: F) ensures r.val() == m_pld(p, l) { unimplemented!() }
+} }
+//@fn geo/src/algorithm/line_intersection.rs | - | nearest_endpoint | id=C11.V.nearest_endpoint
+//@ret r
+//@spec
+    ensures
+        ({
+            let (d1, d2, d3, d4) = (m_pld(p.start, q), m_pld(p.end, q), m_pld(q.start, p), m_pld(q.end, p));
+            // the FIRST of (p.start, p.end, q.start, q.end) whose distance to the other segment is the minimum of the four
+            &&& (d1 <= d2 && d1 <= d3 && d1 <= d4 ==> r == p.start)
+            &&& (d2 < d1 && d2 <= d3 && d2 <= d4 ==> r == p.end)
+            &&& (d3 < d1 && d3 < d2 && d3 <= d4 ==> r == q.start)
+            &&& (d4 < d1 && d4 < d2 && d4 < d3 ==> r == q.end)
+        }),
+//@entry
+    proof { F::ax_obeys(); F::ax_order(); }
+//@end
+
 } // verus!
 fn main() {}
